@@ -97,6 +97,14 @@ def gen(rng, tier, index):
             else:
                 pat = '{}:{}*'.format(hh, mm // 10)
             st['at'] = pat
+            if rng.random() < 0.35:
+                # alternatives that cannot match within the run: another
+                # hour (exact) - the union must still restart at `pat`
+                other_h = (hh + rng.choice([5, 11, 17])) % 24
+                st['at_or'] = ['{}:{:02d}'.format(other_h, rng.randint(0, 58))
+                               for _ in range(rng.randint(1, 2))]
+                if rng.random() < 0.5:
+                    st['at_or_first'] = True
             budget_ticks -= int((ahead + 1) * 60 / tick)
             pattern_active = True
         elif kind == 'zero':
@@ -121,7 +129,9 @@ def gen(rng, tier, index):
         # 'keep': the time register keeps its value
         st['raw'] = raw
         what = rng.choice(['cmd', 'cmd', 'cmd2', 'and', 'wait_cmd', 'get',
-                           'loop'])
+                           'loop', 'group'])
+        if 'd' in st and st['d'] and rng.random() < 0.15:
+            st['via_var'] = True      # `assign dv <d>  time dv`
         if what == 'loop':
             st['n'] = rng.choice([2, 3])
         if 'at' in st:
@@ -175,12 +185,20 @@ def build_script(sc):
             lines.append('units ' + st['units'])
             raw = st['units'] == 'raw'
         if 'at' in st:
-            lines.append('time at ' + st['at'])
-            cur = ('at', st['at'])
+            pats = [st['at']]
+            if st.get('at_or'):
+                pats = (st['at_or'] + pats) if st.get('at_or_first') \
+                    else (pats + st['at_or'])
+            lines.append('time at ' + ' or '.join(pats))
+            cur = ('at', pats)
         elif 'd' in st:
             d = st['d']
-            lines.append('time {}'.format(
-                int(round(d * 1000)) if raw else d))
+            shown = int(round(d * 1000)) if raw else d
+            if st.get('via_var'):
+                lines.append('assign dv {}'.format(shown))
+                lines.append('time dv')
+            else:
+                lines.append('time {}'.format(shown))
             if raw:
                 d = int(round(d * 1000)) / 1000.0
             cur = ('d', d)
@@ -202,6 +220,9 @@ def build_script(sc):
             w = add_wait(t, [1])
         elif what == 'and':
             t = cmd('"Top" and "Lamp"', [0, 1])
+            w = add_wait(t, [0, 1])
+        elif what == 'group':
+            t = cmd('group "G"', [0, 1])
             w = add_wait(t, [0, 1])
         elif what == 'loop':
             # the same WAIT + command executed n times
@@ -394,7 +415,11 @@ def execute(scenario, chooser):
 def _first_match(pattern_text, start_dt, t_from, horizon=180000.0):
     """First virtual instant >= t_from at which the wall clock matches."""
     from bardolph.lib.time_pattern import TimePattern
-    pat = TimePattern.from_string(pattern_text)
+    texts = pattern_text if isinstance(pattern_text, list) else [pattern_text]
+    # what `A or B` denotes is C11's business: follow the repo's own union
+    pat = TimePattern.from_string(texts[0])
+    for t in texts[1:]:
+        pat.union(TimePattern.from_string(t))
     now = start_dt + datetime.timedelta(seconds=t_from)
     if pat.match(now.hour, now.minute):
         return t_from
@@ -562,7 +587,8 @@ def judge(sc, text, waits, rec, sim, st, start_dt, violation, probes, res):
             _k, a, _pat, r, la, lb = until
             m = _first_match(w['val'], start_dt, a)
             if m is None:
-                res['harness_error'] = 'pattern never matches: ' + w['val']
+                res['harness_error'] = 'pattern never matches: {}'.format(
+                    w['val'])
                 return
             nb = blocks_between(la, lb)
             t0_new = inner_reset[1]
